@@ -80,7 +80,10 @@ static void child(const struct use *u, unsigned long r, int silent, int name, in
     atexit(report);
     g_cond = cond & 1;
     DEBUG_LEVEL = (unsigned int) r;
-    libast_set_silent(silent ? TRUE : FALSE);
+    {   /* "silenced" is any true value of the flag, not only TRUE: a masked option bit, a count, -1 */
+        static const int truthy[4] = { 1, 4, 2, -1 };
+        libast_set_silent(silent ? (spif_bool_t) truthy[(r + (unsigned long) name + (unsigned long) cond) & 3] : FALSE);
+    }
     if (!name) libast_program_name = NULL;
     if (u->returns_int) {
         int v = nf();
